@@ -74,8 +74,8 @@ fn gate_actions() -> Vec<Action> {
     v.push(Action::line("DF20 FS5 BDS2,0 SPI", &frames::long_ap(20, frames::surv_bits(5, 0, 0, alt), frames::mb_bds20(frames::callsign_codes("SPI5")), A)));
     v.push(Action::line("DF21 FS7 BDS5,0", &frames::long_ap(21, frames::surv_bits(7, 0, 0, sq), valid_bds50(false), A)));
     // BDS 1,0 data-link capability reports (every one of them leaves the listed parameters alone):
-    // with and without the "Mode S specific services" bit (MB 25), the GICB-changed toggle (MB 4 / frame 36)
-    for (n, mb) in [("plain", 0x10_0000_0000_0000u64), ("services", 0x10_0000_8000_0000), ("toggle", 0x10_1000_8000_0000), ("toggle2", 0x10_1000_0000_0000), ("all-ones", 0x10_FFFF_FFFF_FFFF)] {
+    // with and without the "Mode S specific services" bit (MB 25), the GICB-changed toggle (MB bit 36 = frame bit 68)
+    for (n, mb) in [("plain", 0x10_0000_0000_0000u64), ("services", 0x10_0000_8000_0000), ("toggle36+services", 0x10_0000_8010_0000), ("toggle36", 0x10_0000_0010_0000), ("all-ones", 0x10_FFFF_FFFF_FFFF)] {
         v.push(Action::line(&format!("DF20 BDS1,0 {n}"), &frames::df20(A, alt, mb)));
     }
     // a westbound BDS 5,0 (240 kt) that also has every status bit of the 6,0 layout
@@ -115,6 +115,26 @@ enum Prefix {
     CreatedByFs5,
     /// Open, then an ADS-B velocity squitter (450 kt) and two BDS 1,0 reports with different toggle bits
     OpenAfterAdsbAnd10,
+    /// DF11 CA5, then (order 0) 1,0 / 1,7 all / 1,0' or (order 1) 1,7 all / 1,0 / 1,0', where the second
+    /// report differs from the first in MB bit `bit` only (base 0: all other bits clear, base 1: set)
+    Toggle10 { order: u8, base: u8, bit: u8 },
+}
+
+fn parse_prefix(s: &str) -> Prefix {
+    if let Some(rest) = s.strip_prefix("Toggle10") {
+        let n: Vec<u8> = rest.split(|c: char| !c.is_ascii_digit()).filter(|x| !x.is_empty()).filter_map(|x| x.parse().ok()).collect();
+        if n.len() == 3 {
+            return Prefix::Toggle10 { order: n[0], base: n[1], bit: n[2] };
+        }
+    }
+    match s {
+        "CaClosed" => Prefix::CaClosed,
+        "NotAdvertised" => Prefix::NotAdvertised,
+        "Ca0" => Prefix::Ca0,
+        "CreatedByFs5" => Prefix::CreatedByFs5,
+        "OpenAfterAdsbAnd10" => Prefix::OpenAfterAdsbAnd10,
+        _ => Prefix::Open,
+    }
 }
 
 fn prefix_lines(p: Prefix, addr: u32) -> Vec<Vec<u8>> {
@@ -129,8 +149,19 @@ fn prefix_lines(p: Prefix, addr: u32) -> Vec<Vec<u8>> {
             frames::df20(addr, alt, 0x10_0000_8000_0000).hex().into_bytes(),
             frames::df20(addr, alt, frames::mb_bds17(ALL_CAPS)).hex().into_bytes(),
             frames::df17(5, addr, frames::me_velocity(&frames::Vel { st: 1, dew: 0, vew: 451, dns: 0, vns: 1, vr: 5, ..Default::default() })).hex().into_bytes(),
-            frames::df20(addr, alt, 0x10_1000_0000_0000).hex().into_bytes(),
+            frames::df20(addr, alt, 0x10_0000_0010_0000).hex().into_bytes(),
         ],
+        Prefix::Toggle10 { order, base, bit } => {
+            // two data-link capability reports that differ in exactly one MB bit, around a full BDS 1,7
+            let keep: u64 = !(0x1Fu64 << (56 - 14)); // MB bits 10-14 stay zero (the report stays a BDS 1,0)
+            let b0: u64 = if base == 0 { 0x10_0000_0000_0000 } else { 0x10_FFFF_FFFF_FFFF & keep };
+            let b1 = b0 ^ (1u64 << (56 - bit as u32));
+            let r0 = frames::df20(addr, alt, b0).hex().into_bytes();
+            let r1 = frames::df20(addr, alt, b1).hex().into_bytes();
+            let adv = frames::df20(addr, alt, frames::mb_bds17(ALL_CAPS)).hex().into_bytes();
+            let first = frames::df11(5, addr, 0).hex().into_bytes();
+            if order == 0 { vec![first, r0, adv, r1] } else { vec![first, adv, r0, r1] }
+        }
         Prefix::CreatedByFs5 => vec![frames::long_ap(20, frames::surv_bits(5, 0, 0, alt), 0, addr).hex().into_bytes()],
     }
 }
@@ -342,6 +373,37 @@ fn run(ctx: &mut Ctx) {
             }
         }
     }
+    // data-link capability reports (BDS 1,0) that differ in one bit, before the registers: every MB bit
+    // 9..56 outside 10-14, both polarities, 1,7 before or between the two reports
+    let small: Vec<u64> = {
+        let mut v = vec![];
+        for b in b40_baselines() {
+            v.push(frames::mb_bds40(&b));
+        }
+        for b in b50_baselines() {
+            v.push(frames::mb_bds50(&b));
+        }
+        for b in b60_baselines() {
+            v.push(frames::mb_bds60(&b));
+        }
+        v.push(frames::mb_bds20(frames::callsign_codes("DLH4XY")));
+        v
+    };
+    for opts in [&[][..], &["-U"][..]] {
+        let cfg = Cfg::new(opts);
+        for order in 0..2u8 {
+            for base in 0..2u8 {
+                for bit in (9..=56u8).filter(|b| !(10..=14).contains(b)) {
+                    job += 1;
+                    if !ctx.mine(job) {
+                        continue;
+                    }
+                    ctx.count("sweep:1,0-one-bit-context");
+                    run_sweep(ctx, &cfg, false, Prefix::Toggle10 { order, base, bit }, 20, &small);
+                }
+            }
+        }
+    }
     ctx.sample(|| json!({"GATE history": ["DF11 CA5", "DF20 BDS1,7 5,0", "DF21 BDS5,0 left turn"], "expected": "roll -10/-11, track 120, rate -1, GS 440, TAS 430 decoded"}));
     ctx.sample(|| json!({"sweep vector": [frames::df11(5, BASE, 0).hex(), frames::df20(BASE, frames::ac13_for_alt(7000), frames::mb_bds17(ALL_CAPS)).hex(), mb_frame(20, BASE, valid_bds60(true)).hex()], "expected": "heading 249, IAS 280, Mach 0.78, vertical rate -1920"}));
     ctx.bound("register sweep MB values", mbs.len());
@@ -357,14 +419,7 @@ fn replay(ctx: &mut Ctx, case: &Value) {
         let mb = case.get("mb").and_then(|x| x.as_u64()).unwrap_or(0);
         let df = case.get("df").and_then(|x| x.as_u64()).unwrap_or(20) as u32;
         let addr = case.get("addr").and_then(|x| x.as_u64()).unwrap_or(BASE as u64) as u32;
-        let prefix = match case.get("prefix").and_then(|x| x.as_str()) {
-            Some("CaClosed") => Prefix::CaClosed,
-            Some("NotAdvertised") => Prefix::NotAdvertised,
-            Some("Ca0") => Prefix::Ca0,
-            Some("CreatedByFs5") => Prefix::CreatedByFs5,
-            Some("OpenAfterAdsbAnd10") => Prefix::OpenAfterAdsbAnd10,
-            _ => Prefix::Open,
-        };
+        let prefix = parse_prefix(case.get("prefix").and_then(|x| x.as_str()).unwrap_or("Open"));
         let relaxed = o.contains(&"-R");
         let pre = run_vectors(&cfg, &[Vector { addr, lines: prefix_lines(prefix, addr) }]);
         let mut l = prefix_lines(prefix, addr);
